@@ -219,5 +219,6 @@ func runC26(c *Ctx) []Obligation {
 			Target: CallTo(`^invoke x/nodes/types\.AuthKeeper\.`).Except(`^invoke x/nodes/types\.AuthKeeper\.SendCoins\(free:k\.AccountKeeper, free:ctx, free:feeAddr, recipient, types\.NewCoins\(\[types\.NewCoin\("upokt", share\)\]\)\)$`),
 			Why: "each share of the proposer cut is sent from the fee pool to its recipient, as given"},
 	})...)
+	out = append(out, rewardOperands(c, P)...)
 	return out
 }
